@@ -160,6 +160,7 @@ class CreateTable:
         self.uniques = []  # list of column-name lists
         self.fks = []  # (cols, table, refcols)
         self.checks = []
+        self.if_not_exists = False
 
     def col(self, name):
         for c in self.columns:
@@ -287,11 +288,14 @@ class Parser:
         self.expect_kw("CREATE")
         self.accept_kw("TEMP", "TEMPORARY")
         if self.accept_kw("TABLE"):
+            ine = False
             if self.accept_kw("IF"):
                 self.expect_kw("NOT")
                 self.expect_kw("EXISTS")
+                ine = True
             name = self.ident()
             ct = CreateTable(name)
+            ct.if_not_exists = ine
             self.expect_op("(")
             while True:
                 if self.at_kw("PRIMARY"):
